@@ -260,6 +260,7 @@ IMPORTS = [('wallets:Wallet.transaction_import', 'isinstance(t, Transaction)', '
     mut.drop_stmt('wallets', 'Wallet.transaction_import', 'rt.locktime = t.locktime', 'locktime of an imported transaction object left to transaction_create'),
     mut.drop_stmt('wallets', 'Wallet.transaction_import_raw', 'rt.locktime = t_import.locktime', 'locktime of an imported raw transaction left to transaction_create'),
     mut.drop_stmt('wallets', 'Wallet.transaction_import', "ti.sequence = i['sequence']", 'sequence of dictionary inputs ignored'),
+    mut.replace_expr('wallets', 'Wallet.transaction_import_raw', 'self.transaction_create(t_import.outputs, t_import.inputs, network=network, locktime=t_import.locktime, random_output_order=False)', 'self.transaction_create(t_import.outputs, t_import.inputs, network=network, locktime=t_import.locktime)', 'raw import shuffles the spend'),
 ])
 def import_fields(ctx):
     """Hand-off: transaction_create replaces locktime 0 by the block height when anti fee sniping is on, so each import path (object,
@@ -300,6 +301,23 @@ def import_fields(ctx):
             ctx.match(q, 'path %s: version restored after transaction_create' % (branch or 'raw'), after[var + '.version'], ver, fn, body[create[0]])
     seq = [n for n in ast.walk(tc) if isinstance(n, ast.Assign) and norm(n.targets[0]) == 'sequence' and norm(n.value) == 'inp.sequence']
     ctx.require(bool(seq), 'wallets:Wallet.transaction_create', 'Input objects do not keep their sequence', tc)
+    # every import path rebuilds the transaction in the order it was signed: transaction_create shuffles inputs and outputs unless told not to
+    shuffles = [n for n in ast.walk(tc) if isinstance(n, ast.If) and norm(n.test) == 'random_output_order' and any('shuffle' in norm(x) for x in n.body)]
+    dflt = dict(zip([a.arg for a in tc.args.args][-len(tc.args.defaults):], tc.args.defaults)).get('random_output_order')
+    ctx.saw('transaction_create shuffles when random_output_order (default %s): %s' % (norm(dflt) if dflt is not None else None, bool(shuffles)))
+    n_calls = 0
+    for q in sorted(set(x[0] for x in IMPORTS)):
+        fn = ctx.repo.func(q)
+        for c in ast.walk(fn):
+            if isinstance(c, ast.Call) and norm(c.func) == 'self.transaction_create':
+                n_calls += 1
+                kw = {k.arg: k.value for k in c.keywords}
+                v = kw.get('random_output_order')
+                keeps = v is not None and isinstance(v, ast.Constant) and v.value is False
+                if shuffles and not keeps:
+                    ctx.violate(q, '`%s...` rebuilds the imported transaction with random_output_order=%s: transaction_create shuffles inputs and outputs' % (norm(c)[:70], norm(v) if v is not None else 'the default True'), c,
+                                'the importing wallet holds a different transaction from the one the cosigners signed: every earlier signature is invalid and send() refuses it')
+    ctx.floor(n_calls, 3, 'transaction_create calls of the import paths')
     # dictionary path: sequence
     fn = ctx.repo.func('wallets:Wallet.transaction_import')
     dct = [n for n in ast.walk(fn) if isinstance(n, ast.If) and norm(n.test) == 'isinstance(t, dict)']
@@ -308,6 +326,52 @@ def import_fields(ctx):
     if dct and not uses:
         ctx.violate('wallets:Wallet.transaction_import', "the dictionary path never reads the 'sequence' of the inputs: the imported inputs get the sequence transaction_create chooses", dct[0],
                     'creator online (locktime = height, sequence fffffffe), importer offline (sequence ffffffff): the first signature no longer matches and the 2-of-2 spend never verifies')
+
+
+@PROP.obligation('C10.sig-dedup', canaries=[
+    mut.replace_expr('transactions', 'Input.__init__', 'sig.as_der_encoded() not in [x.as_der_encoded() for x in self.signatures]', 'sig.public_key not in [x.public_key for x in self.signatures]', 'signatures de-duplicated by the (optional) key binding'),
+])
+def sig_dedup(ctx):
+    """Input.__init__ collects the signatures it is given and skips duplicates. The value it compares must identify the signature itself -
+    it has to read r and s (directly or through a Signature method whose body reads both) - because the other attributes are optional
+    metadata: signatures that arrive serialised (dictionary or raw hand-off) carry no public key until verify() binds one, so a
+    comparison on public_key keeps only the first of them."""
+    q = 'transactions:Input.__init__'
+    fn = ctx.repo.func(q)
+    loops = [n for n in walk_no_nested(fn) if isinstance(n, ast.For) and norm(n.iter) == 'signatures']
+    if len(loops) != 1:
+        ctx.undecided('Input.__init__: loop over the given signatures not found')
+    var = loops[0].target.id
+    guards = [n for n in ast.walk(loops[0]) if isinstance(n, ast.If) and any(isinstance(x, ast.Expr) and norm(x.value).startswith('self.signatures.append(') for x in n.body)]
+    appends = [c for c in ast.walk(loops[0]) if isinstance(c, ast.Call) and norm(c.func) == 'self.signatures.append']
+    if not appends:
+        ctx.undecided('Input.__init__: signatures are not collected in the loop')
+    # identity-bearing members of Signature: r, s and every method that reads both
+    sig_methods = ctx.repo.methods_of('keys:Signature')
+    ident = {'r', 's'}
+    for name, f in sig_methods.items():
+        reads = set(n.attr for n in ast.walk(f) if isinstance(n, ast.Attribute) and isinstance(n.value, ast.Name) and n.value.id == 'self')
+        if {'r', 's'} <= reads and name not in ('__init__', 'verify', 'parse', 'parse_bytes', 'parse_hex', 'create', 'from_str'):
+            ident.add(name)
+    ctx.saw('members of Signature that identify the signature value: %s' % sorted(ident))
+    if not guards:
+        ctx.saw('signatures are appended without duplicate test')
+        return
+    for g in guards:
+        cmps = [c for c in ast.walk(g.test) if isinstance(c, ast.Compare) and any(isinstance(o, (ast.NotIn, ast.In)) for o in c.ops)]
+        if not cmps:
+            ctx.unsure('%s: duplicate test `%s` is not a membership test' % (q, norm(g.test)))
+            continue
+        for c in cmps:
+            left = c.left
+            if isinstance(left, ast.Name) and left.id == var:
+                ctx.saw('duplicates found by comparing the Signature objects themselves')
+                continue
+            used = set(n.attr for n in ast.walk(left) if isinstance(n, ast.Attribute) and isinstance(n.value, ast.Name) and n.value.id == var)
+            ctx.saw('duplicates found by comparing %s (members used: %s)' % (norm(left), sorted(used)))
+            if not (used & ident):
+                ctx.violate(q, 'a given signature is dropped as duplicate when `%s`: %s does not identify the signature value (r, s)' % (norm(g.test)[:100], ', '.join('Signature.' + u for u in sorted(used)) or 'the compared value'), g,
+                            'signatures handed over as bytes / hex have no public key bound (None): from the second one on they are silently dropped, an m-of-n spend with m >= 3 never completes after a dictionary hand-off')
 
 
 @PROP.obligation('C10.raw-handoff')
